@@ -46,18 +46,35 @@ class C20(Prop):
                           data_values="edif", undefined_dir=True, twins=True)
 
     def strategy(self, tier):
-        return st.fixed_dictionaries({
-            "design": gen_ir.recipes(self.cfg(tier)),
-            "copy": st.sampled_from(["rebuild", "clone"]),
-            "mutation": st.fixed_dictionaries({"kind": st.sampled_from(MUTATIONS),
-                                               "i": st.integers(0, 40), "j": st.integers(0, 40),
-                                               "k": st.integers(0, 40)}),
-        })
+        from vf import gen_verilog
+        from vf.props.c05 import NAMES
+
+        mut = st.fixed_dictionaries({"kind": st.sampled_from(MUTATIONS), "i": st.integers(0, 40),
+                                     "j": st.integers(0, 40), "k": st.integers(0, 40)})
+        api = st.fixed_dictionaries({"design": gen_ir.recipes(self.cfg(tier)),
+                                     "copy": st.sampled_from(["rebuild", "clone"]), "mutation": mut})
+        ecfg = gen_ir.Cfg(unnamed=False, alphabet=[n for n in NAMES if "[" not in n], max_defs=5,
+                          max_children=4, max_width=3, share=True, top="always", lib_monotone=True,
+                          reorder=False, top_modes=["standalone"], data_values="edif")
+        edif = st.fixed_dictionaries({"design": gen_ir.recipes(ecfg), "copy": st.just("edif-roundtrip"),
+                                      "stream": st.lists(st.integers(0, 63), min_size=8, max_size=30),
+                                      "mutation": mut})
+        ver = st.fixed_dictionaries({"vdesign": gen_verilog.designs(), "copy": st.just("verilog-roundtrip"),
+                                     "mutation": mut})
+        return st.one_of(api, api, edif, ver)
 
     def run(self, case):
         res = Result()
-        N = gen_ir.build(case["design"]).netlist
-        if case["copy"] == "clone":
+        if case["copy"] in ("edif-roundtrip", "verilog-roundtrip"):
+            pair = self.roundtrip_pair(res, case)
+            if pair is None:
+                return res
+            N, M = pair
+        else:
+            N = gen_ir.build(case["design"]).netlist
+        if case["copy"] in ("edif-roundtrip", "verilog-roundtrip"):
+            pass
+        elif case["copy"] == "clone":
             try:
                 M = N.clone()
             except Exception as e:  # noqa (C07's business)
@@ -86,6 +103,42 @@ class C20(Prop):
             return res
         res.violate("C20:difference-accepted:%s" % m["kind"], applied)
         return res
+
+    def roundtrip_pair(self, res, case):
+        """N = a reader-produced netlist, M = parse(compose(N)) in the same format"""
+        import os
+        import tempfile
+
+        import spydrnet as sdn
+        from vf import gen_edif, gen_verilog
+        from vf.props.c05 import parse_text as parse_edif
+        from vf.props.c06 import parse_text as parse_verilog
+
+        try:
+            if case["copy"] == "edif-roundtrip":
+                B = gen_ir.build(case["design"])
+                text, _, _ = gen_edif.render(model.canon(B.netlist), case["stream"])
+                N = parse_edif(text)
+                ext = ".edf"
+            else:
+                d = dict(case["vdesign"])
+                if not gen_verilog.in_domain(d) or any(not P["declared"] for P in d["prims"]):
+                    # an inferred black box changes on write (undefined -> inout, documented): the
+                    # comparer is only claimed for faithful copies
+                    res.label("out-of-domain")
+                    return None
+                text, _, _ = gen_verilog.text_of(d)
+                N = parse_verilog(text)
+                ext = ".v"
+            with tempfile.TemporaryDirectory() as td:
+                p = os.path.join(td, "c" + ext)
+                sdn.compose(N, p)
+                M = sdn.parse(p)
+        except Exception:  # noqa readers/writers are judged by C03-C06
+            sdn.namespace_manager.default = "DEFAULT"
+            res.label("roundtrip-raised")
+            return None
+        return N, M
 
     # -------------------------------------------------------------------------------------------
     def mutate(self, M, m):
